@@ -393,6 +393,13 @@ func (s *BlockSpec) decode(content *hcl.BodyContent, blockLabels []blockLabel, c
 	if s.Nested == nil {
 		panic("BlockSpec with no Nested Spec")
 	}
+	if u, ok := childBlock.Body.(UnknownBody); ok {
+		if u.Unknown() {
+			// If the block's body is unknown then we can't predict whether
+			// the block will be present at all, so the result is unknown.
+			return cty.UnknownVal(s.impliedType().WithoutOptionalAttributesDeep()), diags
+		}
+	}
 	val, _, childDiags := decode(childBlock.Body, labelsForBlock(childBlock), ctx, s.Nested, false)
 	val = prepareBodyVal(val, childBlock.Body)
 	diags = append(diags, childDiags...)
